@@ -185,6 +185,21 @@ impl Block {
         &source[self.content_bytes_range.clone()]
     }
 
+    /// Returns the 1-based line number of the block's content line with the given 0-based index and
+    /// the offset to be added to the 1-based character positions in that line.
+    ///
+    /// The content starts right after the comment with the start tag, so its first line does not
+    /// start at the beginning of the source line.
+    pub(crate) fn content_line_position(&self, content_line_index: usize) -> (usize, usize) {
+        let content_start = &self.content_position_range.start;
+        let character_offset = if content_line_index == 0 {
+            content_start.character.saturating_sub(1)
+        } else {
+            0
+        };
+        (content_start.line + content_line_index, character_offset)
+    }
+
     /// Returns the block's severity.
     pub(crate) fn severity(&self) -> anyhow::Result<BlockSeverity> {
         self.attributes
